@@ -1983,6 +1983,8 @@ static int parse_table(struct scanner_s *scanner, cif_value_tp **tablep) {
                     /* recover by handling it as a NULL (not empty) key */
                     if (TVALUE_LENGTH(scanner) > 1) {
                         TRIM_TOKEN(scanner, 1);
+                        /* as behind a key, the value may follow the colon directly */
+                        scanner->ttype = KEY;
                     }
                     CONSUME_TOKEN(scanner);
                     break;
